@@ -157,7 +157,7 @@ MatchStaticSize(P, m) == StaticSize(P.rules[m.r].prod, ParamSizes(P, m, 1, <<>>)
 Constrain(par, x) ==
     LET X == AsInt(x) IN
     IF par.ty = "none" THEN x
-    ELSE IF X.t = "big" THEN BigV
+    ELSE IF X.t \in {"big", "wint"} THEN BigV
     ELSE IF X.t # "int" THEN ErrV
     ELSE LET ok == CASE par.ty = "u" -> ~CodedRejectsU(par.n, X.v)
                      [] par.ty = "s" -> ~CodedRejectsS(par.n, X.v)
@@ -186,20 +186,20 @@ EvalCand(P, m, env) ==
     IF ~b.ok THEN b.v
     ELSE Eval(P.rules[m.r].prod, [x \in DOMAIN env \cup DOMAIN b.loc |-> IF x \in DOMAIN b.loc THEN b.loc[x] ELSE env[x]]).v
 
-\* an instruction's encoding: [t |-> "ok", v, s] | "err" | "big"
+\* an instruction's encoding: [t |-> "ok", bits, s] | "err" | "big"
 \*   every candidate must yield a sized integer, a failed constraint or
 \*   nothing; among the sized ones the unique smallest wins
 Encoding(P, cands, env) ==
     LET vals == {[m |-> m, x |-> AsInt(EvalCand(P, m, env))] : m \in cands}
-    IN  IF \E c \in vals : c.x.t = "big" THEN [t |-> "big", v |-> 0, s |-> 0]
-        ELSE IF \E c \in vals : c.x.t \in {"err", "unknown"} \/ (c.x.t \notin {"int", "failed"})
-                                 \/ (c.x.t = "int" /\ c.x.s < 0) THEN [t |-> "err", v |-> 0, s |-> 0]
-        ELSE LET good == {c \in vals : c.x.t = "int"} IN
-             IF good = {} THEN [t |-> "err", v |-> 0, s |-> 0]
+    IN  IF \E c \in vals : c.x.t = "big" THEN [t |-> "big", bits |-> <<>>, s |-> 0]
+        ELSE IF \E c \in vals : c.x.t \in {"err", "unknown"} \/ (c.x.t \notin {"int", "wint", "failed"})
+                                 \/ (c.x.t = "int" /\ c.x.s < 0) THEN [t |-> "err", bits |-> <<>>, s |-> 0]
+        ELSE LET good == {c \in vals : c.x.t \in {"int", "wint"}} IN
+             IF good = {} THEN [t |-> "err", bits |-> <<>>, s |-> 0]
              ELSE LET ms == Min({c.x.s : c \in good})
                       sm == {c \in good : c.x.s = ms}
-                  IN IF Cardinality({<<c.x.v, c.x.s, c.m>> : c \in sm}) > 1 THEN [t |-> "err", v |-> 0, s |-> 0]
-                     ELSE LET c == CHOOSE c \in sm : TRUE IN [t |-> "ok", v |-> c.x.v, s |-> c.x.s]
+                  IN IF Cardinality({c.m : c \in sm}) > 1 THEN [t |-> "err", bits |-> <<>>, s |-> 0]
+                     ELSE LET c == CHOOSE c \in sm : TRUE IN [t |-> "ok", bits |-> ToBits(c.x), s |-> c.x.s]
 
 (***************************************************************************)
 (* ASSEMBLE (size-static programs, default bank only or explicit banks     *)
@@ -299,11 +299,16 @@ Assemble(P) ==
                           LET e == Encoding(P, cands[i], env) IN
                           IF e.t # "ok" THEN <<[t |-> e.t, bits |-> <<>>]>>
                           ELSE IF e.s # sizes[i][1] THEN <<[t |-> "skip", bits |-> <<>>]>>
-                          ELSE <<[t |-> "ok", bits |-> BitsOf(e.v, e.s)]>>
+                          ELSE <<[t |-> "ok", bits |-> e.bits]>>
                     [] it.k = "data" ->
                           [j \in 1..Len(it.es) |->
                               LET x == AsInt(Eval(it.es[j], env).v) IN
                               IF x.t = "big" THEN [t |-> "skip", bits |-> <<>>]
+                              ELSE IF x.t = "wint"
+                              THEN (IF it.w >= 0
+                                    THEN (IF x.s <= it.w THEN [t |-> "ok", bits |-> [k \in 1..(it.w - x.s) |-> 0] \o x.cps]
+                                          ELSE [t |-> "err", bits |-> <<>>])
+                                    ELSE (IF x.s # sizes[i][j] THEN [t |-> "skip", bits |-> <<>>] ELSE [t |-> "ok", bits |-> x.cps]))
                               ELSE IF x.t # "int" THEN [t |-> "err", bits |-> <<>>]
                               ELSE IF it.w >= 0
                               THEN IF DataAccepts(it.w, x.v, x.s) THEN [t |-> "ok", bits |-> BitsOf(x.v, it.w)]
@@ -340,4 +345,75 @@ Assemble(P) ==
                             LET cov == {k \in 1..Len(elems) : elems[k].kind = "w" /\ elems[k].pos < p /\ p <= elems[k].pos + elems[k].size}
                             IN IF cov = {} THEN 0 ELSE LET k == CHOOSE k \in cov : TRUE IN elems[k].bits[p - elems[k].pos]]
              IN [t |-> "ok", why |-> "", out |-> out, syms |-> symv]
+
+(***************************************************************************)
+(* C02: THE FIXED-POINT CERTIFICATE.  Given the final state an assembly    *)
+(* CLAIMS (per item: cursor, sizes and bits of its elements; per symbol:   *)
+(* its value), check without reference to passes that it is consistent     *)
+(* with the rules:                                                         *)
+(*   - walking the items with the claimed sizes reproduces every cursor;   *)
+(*   - every label equals the address it sits at;                          *)
+(*   - every constant equals its expression under the claimed values;      *)
+(*   - every instruction has, among the rules that match it, exactly one   *)
+(*     smallest encoding whose constraints hold under the claimed values   *)
+(*     at its own address, and that is what was emitted (value AND size);  *)
+(*   - every data element holds its operand at the stated width.           *)
+(* Returns "" or the name of the first broken clause ("skip:..." when the  *)
+(* program leaves the fragment this specification evaluates).              *)
+(***************************************************************************)
+ClaimEnv(P, d, claim, symv, i) ==
+    [x \in DOMAIN symv \cup {"$", "pc", "#ctx"} |->
+        IF x \in {"$", "pc"} THEN (IF claim.pos[i] % 8 = 0 THEN IntV(claim.pos[i] \div 8, -1) ELSE ErrV)
+        ELSE IF x = "#ctx" THEN CtxVal(d.ctxs[i])
+        ELSE symv[x]]
+
+Certificate(P, claim) ==
+    LET d == Declare(P.items, 1, <<>>, {}, <<>>, <<>>) IN
+    IF ~d.ok THEN "declaration"
+    ELSE
+    LET n == Len(P.items)
+        cands == [i \in 1..n |-> IF P.items[i].k = "instr" THEN Match(P, P.items[i].toks) ELSE {}]
+        declared == {d.names[i] : i \in {i \in 1..n : P.items[i].k \in {"label", "const"}}}
+        claimed == {claim.syms[k].name : k \in 1..Len(claim.syms)}
+        symOf(x) == claim.syms[CHOOSE k \in 1..Len(claim.syms) : claim.syms[k].name = x]
+    IN  IF \E i \in 1..n : P.items[i].k = "instr" /\ cands[i] = {} THEN "no-match"
+        ELSE IF declared # claimed THEN "symbol-table"
+        ELSE IF \E x \in declared : symOf(x).wide \/ ~symOf(x).int THEN "skip:wide-or-non-integer-symbol"
+        ELSE
+    LET symv == [x \in declared |-> IntV(symOf(x).v, -1)]
+        pos == Positions(P, claim.sizes, 1, 0, <<>>)
+    IN  IF pos # claim.pos THEN "positions"
+        ELSE IF \E i \in 1..n : P.items[i].k = "label" /\
+                    (pos[i] % 8 # 0 \/ symv[d.names[i]].v # pos[i] \div 8) THEN "label"
+        ELSE
+    LET constBad(i) ==
+            LET x == AsInt(Eval(P.items[i].e, ClaimEnv(P, d, claim, symv, i)).v) IN
+            IF x.t = "big" THEN "skip" ELSE IF x.t = "int" /\ x.v = symv[d.names[i]].v THEN "" ELSE "bad"
+        instrBad(i) ==
+            LET e == Encoding(P, cands[i], ClaimEnv(P, d, claim, symv, i)) IN
+            IF e.t = "big" THEN "skip"
+            ELSE IF e.t # "ok" THEN "bad"
+            ELSE IF e.s = claim.sizes[i][1] /\ e.bits = claim.bits[i][1] THEN "" ELSE "bad"
+        dataBad(i, j) ==
+            LET it == P.items[i]
+                x == AsInt(Eval(it.es[j], ClaimEnv(P, d, claim, symv, i)).v) IN
+            IF x.t = "big" THEN "skip"
+            ELSE IF x.t = "wint"
+            THEN (IF it.w >= 0
+                  THEN (IF x.s <= it.w /\ claim.sizes[i][j] = it.w /\ claim.bits[i][j] = [k \in 1..(it.w - x.s) |-> 0] \o x.cps THEN "" ELSE "bad")
+                  ELSE (IF claim.sizes[i][j] = x.s /\ claim.bits[i][j] = x.cps THEN "" ELSE "bad"))
+            ELSE IF x.t # "int" THEN "bad"
+            ELSE IF it.w >= 0
+            THEN (IF DataAccepts(it.w, x.v, x.s) /\ claim.sizes[i][j] = it.w /\ BitsOf(x.v, it.w) = claim.bits[i][j] THEN "" ELSE "bad")
+            ELSE (IF x.s >= 0 /\ claim.sizes[i][j] = x.s /\ BitsOf(x.v, x.s) = claim.bits[i][j] THEN "" ELSE "bad")
+        consts == {i \in 1..n : P.items[i].k = "const"}
+        instrs == {i \in 1..n : P.items[i].k = "instr"}
+        datas == {<<i, j>> \in (1..n) \X (1..8) : P.items[i].k = "data" /\ j <= Len(P.items[i].es)}
+    IN  IF \E i \in consts : constBad(i) = "skip" THEN "skip:wide"
+        ELSE IF \E i \in consts : constBad(i) = "bad" THEN "constant"
+        ELSE IF \E i \in instrs : instrBad(i) = "skip" THEN "skip:wide"
+        ELSE IF \E i \in instrs : instrBad(i) = "bad" THEN "instruction-not-the-unique-smallest-valid-encoding"
+        ELSE IF \E p \in datas : dataBad(p[1], p[2]) = "skip" THEN "skip:wide"
+        ELSE IF \E p \in datas : dataBad(p[1], p[2]) = "bad" THEN "data"
+        ELSE ""
 =============================================================================
